@@ -30,6 +30,7 @@ type domEdit struct {
 
 type c05Clone struct {
 	X     W         `json:"x"`
+	Pre   []domEdit `json:"pre"` // edits applied before Clone (the document's own history)
 	Edits []domEdit `json:"edits"`
 }
 
@@ -86,7 +87,23 @@ func c05Run(c *Ctx) {
 	for i := 0; i < c.N(600); i++ {
 		c.Tick()
 		x := g.Doc(r)
-		c.Do("clone", c05Clone{X: x, Edits: genDomEdits(r, g, x, 1+r.Intn(4))})
+		cl := c05Clone{X: x, Edits: genDomEdits(r, g, x, 1+r.Intn(4))}
+		if r.Intn(2) == 0 {
+			// give the document a history: members added to and removed again from containers
+			// (so that they are empty but once-written), then aim the later edits at them
+			var conts []string
+			wireContPaths(x, "", &conts)
+			conts = append(conts, pick(r, g.Keys))
+			for k := 0; k < 1+r.Intn(3); k++ {
+				cp := pick(r, conts)
+				cl.Pre = append(cl.Pre, domEdit{Op: "addat", Path: cp + ".tmp_", V: g.Scalar(r)}, domEdit{Op: "removeat", Path: cp + ".tmp_"})
+				if r.Intn(3) > 0 {
+					cl.Pre = append(cl.Pre, domEdit{Op: "emptyout", Path: cp})
+				}
+				cl.Edits = append(cl.Edits, domEdit{Op: "addat", Path: cp + "." + pick(r, g.Keys), V: g.Scalar(r)})
+			}
+		}
+		c.Do("clone", cl)
 	}
 	if c.Thorough() && !c.searchMode {
 		all := enumNodes(4)
@@ -185,6 +202,29 @@ func wirePaths(w W, prefix string, out *[]string, lists *[]string) {
 	}
 }
 
+// wireContPaths lists the lookup paths of containers reachable through containers and lists.
+func wireContPaths(w W, prefix string, out *[]string) {
+	switch x := w.(type) {
+	case []any:
+		for i, e := range x {
+			wireContPaths(e, fmt.Sprintf("%s[%d]", prefix, i), out)
+		}
+	case map[string]any:
+		if c, ok := x["m"].(map[string]any); ok {
+			if prefix != "" {
+				*out = append(*out, prefix)
+			}
+			for _, k := range sortedKeys(c) {
+				p := k
+				if prefix != "" {
+					p = prefix + "." + k
+				}
+				wireContPaths(c[k], p, out)
+			}
+		}
+	}
+}
+
 func genDomEdits(r *rand.Rand, g *DocGen, x W, n int) []domEdit {
 	var paths, lists []string
 	wirePaths(x, "", &paths, &lists)
@@ -228,6 +268,15 @@ func applyDomEdit(cb dom.ContainerBuilder, e domEdit) {
 		cb.AddValueAt(e.Path, wireNode(e.V))
 	case "removeat":
 		cb.RemoveAt(e.Path)
+	case "emptyout":
+		// remove every member of the container at Path, one by one
+		if n := cb.Lookup(e.Path); n != nil && n.IsContainer() {
+			if b, ok := n.(dom.ContainerBuilder); ok {
+				for _, k := range sortedKeys(b.Children()) {
+					b.Remove(k)
+				}
+			}
+		}
 	case "listappend", "listset", "listclear":
 		n := cb.Lookup(e.Path)
 		if n == nil || !n.IsList() {
@@ -315,8 +364,11 @@ func c05Eval(c *Ctx, kind string, raw []byte) {
 		c.Nontrivial()
 		out, txt := guard(func() {
 			x := wireContainer(p.X)
-			// Clone returns a read-only Container, so only the original can be edited
+			for _, e := range p.Pre {
+				applyDomEdit(x, e)
+			}
 			cl := x.Clone().(dom.Container)
+			c.Direct("clone-equals-original(after history)", cl.Equals(x) && x.Equals(cl) && canon(nodeWire(cl)) == canon(nodeWire(x)), nil)
 			before := canon(nodeWire(x))
 			for _, e := range p.Edits {
 				applyDomEdit(x, e)
